@@ -1,4 +1,5 @@
 import Falcon.Lemmas.VerifyAlg
+import Falcon.Lemmas.CodecRefine
 import Falcon.Model.Verify
 
 /-!
@@ -77,6 +78,30 @@ theorem verifyCore_eq_spec (chk : Bool) (d : Nat) (hd : d ≤ 10) (P : Params) (
 theorem verifyCore_undecodable (chk : Bool) (P : Params) (N : Nat) (c s h : List Nat)
     (hdec : Codec.decompress chk s N = .ok none) : verifyCore chk P N c s h = .ok false := by
   simp [verifyCore, hdec]
+
+/-- Algorithm 16 on raw bytes, as a specification: decode the body with Algorithm 18 (library cap 95 on the
+    unary run), then the norm test -/
+def specVerify (n bound : Nat) (c s h : List Nat) : Bool :=
+  match Spec.decompressRef 95 s n with
+  | none => false
+  | some s2 => specAccept n bound c h s2
+
+/-- **verify = Algorithm 16 on raw bytes**: for every n = 2^d ≤ 1024 (in particular 512 and 1024), every
+    hashed point, every public key, every signature body (any byte string), both build modes -/
+theorem verifyCore_eq_algorithm16 (chk : Bool) (d : Nat) (hd : d ≤ 10) (P : Params) (c s h : List Nat)
+    (hs : ∀ b ∈ s, b < 256) (hc : c.length = 2 ^ d) (hh : h.length = 2 ^ d) :
+    verifyCore chk P (2 ^ d) c s h = .ok (specVerify (2 ^ d) P.sigBound c s h) := by
+  have hn : 1 ≤ 2 ^ d := Nat.pow_pos (by decide)
+  have hdec := Codec.decompress_eq_spec chk s hs (2 ^ d) hn
+  unfold specVerify
+  cases hr : Spec.decompressRef 95 s (2 ^ d) with
+  | none =>
+    rw [hr] at hdec
+    exact verifyCore_undecodable chk P _ c s h hdec
+  | some s2 =>
+    rw [hr] at hdec
+    have hl := Codec.decompress_length chk s (2 ^ d) hn s2 hdec
+    exact verifyCore_eq_spec chk d hd P c s h s2 hc hh hl hdec
 
 /-- the library's magnitude cap (|s2_i| ≤ 12159) never changes the verdict: a coefficient of magnitude
     ≥ 12160 alone exceeds ⌊β²⌋ of either variant -/
